@@ -277,6 +277,9 @@ theorem source_face_to_vertices_eq_model (S : Surf) (a b : V2Cn) (f : Nat) :
     Mouette.Generated.C01Acc.faceToVertices S a b f = faceOf S f := rfl
 theorem source_edge_to_vertices_eq_model (S : Surf) (a b : V2Cn) (e : Nat) :
     Mouette.Generated.C01Acc.edgeToVertices S a b e = edgeToVertices S e := edgeToVertices_bridge S a b e
+/-- **bridge** `corner_to_face` (`face_corners.adj(C)`; `none` = IndexError) -/
+theorem source_corner_to_face_eq_model (S : Surf) (a b : V2Cn) (c : Nat) :
+    Mouette.Generated.C01Acc.cornerToFace S a b c = cornerToFace S c := cornerToFace_bridge S a b c
 /-- `vertex_to_corners` / `vertex_to_vertices` are reads of the tables `_sort_vertex_neighborhoods` leaves -/
 theorem source_vertex_to_corners_reads_table (S : Surf) (a b : V2Cn) (ha : a = (List.range S.nv).map (vertexToCorners S)) (v : Nat)
     (hv : v < S.nv) : Mouette.Generated.C01Acc.vertexToCorners S a b v = some (vertexToCorners S v) := vertexToCorners_bridge S a b ha v hv
